@@ -33,6 +33,16 @@ class RemoteContextWorker(PersistentProcessWorker):
 
     def do_work(self):
         self._target(None, _check_payload=True)
+
+        def cleanup(*args):
+            # If the server gives up waiting and kills us, do not leave our workers behind (see RemoteServer.install_handlers)
+            for child in self._target.__self__._children:
+                if child.is_alive():
+                    os.kill(child.pid, signal.SIGTERM)
+            signal.signal(signal.SIGTERM, signal.SIG_DFL)
+            os.kill(os.getpid(), signal.SIGTERM)
+
+        signal.signal(signal.SIGTERM, cleanup)
         try:
             ret = super().do_work()
         finally:
